@@ -3,6 +3,7 @@ package animenc
 import (
 	"bytes"
 	"fmt"
+	"strings"
 	"image"
 	"time"
 
@@ -46,22 +47,32 @@ func fillerDisposed(o *Outcome, k int) bool {
 	return false
 }
 
-// metaKept: the metadata set on the encoder is in the file, byte for byte.
-func metaKept(c *Ctx, h *History, o *Outcome, rep Replay) string {
-	if !bytes.Equal(o.ICC, h.ICC) || !bytes.Equal(o.EXIF, h.EXIF) || !bytes.Equal(o.XMP, h.XMP) {
-		c.Violate("metadata-lost", "metadata set on the animation encoder is not in the written file", rep)
-		return "metadata-lost"
+// observe records something that is outside the property text or its quantifier: a counter in
+// the evidence, never a violation.
+func observe(c *Ctx, key string) { c.Count("observation:" + key) }
+
+// sessionFailed maps a failed session onto the property: "an animation written by the encoder
+// plays back" is decided only once a file has been written; an encoder that refuses (or
+// panics on) an input writes no animation, which the text does not rule out - the
+// correspondence with the model still reports it.
+func sessionFailed(c *Ctx, o *Outcome, rep Replay) string {
+	if o.Written {
+		c.Violate("written-file-does-not-play-back", "the written file could not be read / decoded / played back: "+o.Err, rep)
+		return "written-file-does-not-play-back"
 	}
+	observe(c, "encoder-refused:"+strings.SplitN(o.Err, " ", 2)[0])
 	return ""
 }
 
 // EvalLossless evaluates C08 directly on the implementation's observable behaviour:
 // played pictures and display times against the inputs.  Returns the violation key ("" if none).
+// Clauses: canvas size preserved; the distinct consecutive input pictures are the played
+// pictures, in order, transparent pixels equal; with >= 2 distinct pictures the display time
+// of every picture (hence the total) and the loop count (for values the container can hold).
 func EvalLossless(c *Ctx, h *History, o *Outcome) string {
 	rep := Replay{History: h, Frames: o.Frames}
 	if o.Err != "" {
-		c.Violate("error:"+o.Err, "lossless animation session failed: "+o.Err, rep)
-		return "error:" + o.Err
+		return sessionFailed(c, o, rep)
 	}
 	if o.CW != h.W || o.CH != h.H {
 		rep.Note = fmt.Sprintf("canvas %dx%d, expected %dx%d", o.CW, o.CH, h.W, h.H)
@@ -69,9 +80,8 @@ func EvalLossless(c *Ctx, h *History, o *Outcome) string {
 		return "canvas-size"
 	}
 	if k := o.CodecExact(h); k >= 0 {
-		rep.Note = fmt.Sprintf("frame %d does not decode to the picture that was encoded", k)
-		c.Violate("lossless-codec-not-exact", rep.Note, rep)
-		return "lossless-codec-not-exact"
+		// how a picture is cut into frames and what each frame stores is the encoder's business
+		observe(c, "stored-frame-differs-from-source-region")
 	}
 	ics, ids := inputs(h)
 	gin := Collapse(ics, ids, NormPx)
@@ -104,13 +114,12 @@ func EvalLossless(c *Ctx, h *History, o *Outcome) string {
 		c.Violate(key, rep.Note, rep)
 		return key
 	}
-	if k := metaKept(c, h, o, rep); k != "" {
-		return k
+	if !bytes.Equal(o.ICC, h.ICC) || !bytes.Equal(o.EXIF, h.EXIF) || !bytes.Equal(o.XMP, h.XMP) {
+		observe(c, "metadata-not-in-file") // C15's subject, not C08's
 	}
 	if len(gin) >= 2 {
 		if o.Still {
-			c.Violate("still-with-two-pictures", "two distinct pictures but a still image was written", rep)
-			return "still-with-two-pictures"
+			observe(c, "several-pictures-without-animation-flag")
 		}
 		for g := range gin {
 			if gin[g].Dur != gout[g].Dur {
@@ -119,8 +128,12 @@ func EvalLossless(c *Ctx, h *History, o *Outcome) string {
 				return "display-time"
 			}
 		}
-		if o.Loop != ClampLoop(h.Loop) {
-			rep.Note = fmt.Sprintf("loop count %d, expected %d", o.Loop, ClampLoop(h.Loop))
+		if h.Loop < 0 || h.Loop > 65535 {
+			if o.Loop != ClampLoop(h.Loop) {
+				observe(c, "out-of-range-loop-count-not-clamped")
+			}
+		} else if o.Loop != h.Loop {
+			rep.Note = fmt.Sprintf("loop count %d, expected %d", o.Loop, h.Loop)
 			c.Violate("loop-count", rep.Note, rep)
 			return "loop-count"
 		}
@@ -128,74 +141,70 @@ func EvalLossless(c *Ctx, h *History, o *Outcome) string {
 	return ""
 }
 
-// EvalAlpha evaluates C18: the alpha plane of every played picture equals the source alpha
-// (pictures are identified through the container frame -> AddFrame index map recorded while
-// encoding, since lossy colour is not comparable), and every lossy frame of a picture with
-// transparency carries an ALPH sub-chunk.
+// EvalAlpha evaluates C18: the sequence of distinct consecutive alpha planes played equals
+// the sequence of distinct consecutive alpha planes added (pictures whose alpha planes are
+// equal merge on both sides; how the encoder cuts, merges or pads frames does not matter).
+// The key only classifies a mismatch that was found.
 func EvalAlpha(c *Ctx, h *History, o *Outcome) string {
 	rep := Replay{History: h, Frames: o.Frames}
 	if o.Err != "" {
-		c.Violate("error:"+o.Err, "animation session failed: "+o.Err, rep)
-		return "error:" + o.Err
+		return sessionFailed(c, o, rep)
 	}
 	if o.CW != h.W || o.CH != h.H {
-		c.Violate("canvas-size", "canvas size changed", rep)
-		return "canvas-size"
+		observe(c, "canvas-size-differs") // C08's clause; the alpha planes cannot be compared
+		return ""
+	}
+	if k := o.CodecExact(h); k >= 0 {
+		observe(c, "stored-frame-alpha-differs-from-source-region")
 	}
 	ics, _ := inputs(h)
-	if k := o.CodecExact(h); k >= 0 {
-		rep.Note = fmt.Sprintf("frame %d (lossy=%v, still=%v): the decoded frame picture does not have the alpha of the picture that was encoded", k, o.Frames[k].Lossy, o.Still)
-		key := "frame-codec-alpha-not-exact"
-		if o.Still && o.Simple {
-			key = "still-codec-alpha-not-exact"
+	zeros := make([]int, len(ics))
+	gin := Collapse(ics, zeros, AlphaPlane)
+	gout := Collapse(o.Canvases, make([]int, len(o.Canvases)), AlphaPlane)
+	lossyNoALPH := false
+	for _, f := range o.Frames {
+		if f.Lossy && !f.HasALPH {
+			lossyNoALPH = true
 		}
-		c.Violate(key, rep.Note, rep)
-		return key
 	}
-	if o.Still {
-		if len(o.Canvases) != 1 || len(o.Frames) != 1 {
-			c.Violate("still-frames", "still image with several frames", rep)
-			return "still-frames"
-		}
-	} else if len(o.Frames) != len(o.EmitInput) || len(o.Canvases) != len(o.Frames) {
-		c.Violate("frame-count", fmt.Sprintf("%d frames in the file, %d emitted", len(o.Frames), len(o.EmitInput)), rep)
-		return "frame-count"
-	}
-	for k, f := range o.Frames {
-		src := ics[f.Input]
-		// structural part: a lossy frame whose source region has transparency must carry ALPH
-		transparent := false
-		for y := f.Y; y < f.Y+f.H && y < h.H; y++ {
-			for x := f.X; x < f.X+f.W && x < h.W; x++ {
-				if src[(y*h.W+x)*4+3] != 255 {
-					transparent = true
-				}
-			}
-		}
-		if f.Filler {
-			transparent = true // overflow filler: a fully transparent 1x1 picture
-		}
-		if f.Lossy && transparent && !f.HasALPH {
-			rep.Note = fmt.Sprintf("frame %d (input %d) is lossy, its source has transparency, and it has no ALPH sub-chunk", k, f.Input)
-			c.Violate("lossy-frame-without-alph", rep.Note, rep)
+	classify := func(k int, wantA, gotA byte, p int) string {
+		switch {
+		case k < len(o.Frames) && o.Frames[k].Lossy && !o.Frames[k].HasALPH && gotA == 255 && wantA != 255:
 			return "lossy-frame-without-alph"
+		case k < len(o.Frames) && !o.Frames[k].BlendNone && wantA > 0 && wantA < 255:
+			return "blend-unchanged-semitransparent"
+		case fillerDisposed(o, k):
+			return "filler-stale-rect"
 		}
-		want, got := AlphaPlane(src), AlphaPlane(o.Canvases[k])
-		if !bytes.Equal(want, got) {
-			p := firstDiff(want, got, 1)
-			rep.Note = fmt.Sprintf("played frame %d (input %d): alpha at (%d,%d) is %d, expected %d", k, f.Input, p%h.W, p/h.W, got[p], want[p])
+		return "alpha-mismatch"
+	}
+	for g := 0; g < len(gin) || g < len(gout); g++ {
+		if g >= len(gin) || g >= len(gout) {
+			rep.Note = fmt.Sprintf("%d distinct alpha planes played, %d added", len(gout), len(gin))
 			key := "alpha-mismatch"
-			if !f.BlendNone && want[p] > 0 && want[p] < 255 && f.Input > 0 &&
-				ics[f.Input-1][p*4+3] == want[p] {
-				key = "blend-unchanged-semitransparent"
-			} else if fillerDisposed(o, k) {
+			if lossyNoALPH {
+				key = "lossy-frame-without-alph"
+			} else if fillerDisposed(o, len(o.Frames)) {
 				key = "filler-stale-rect"
 			}
 			c.Violate(key, rep.Note, rep)
 			return key
 		}
+		want, got := gin[g].Canvas, gout[g].Canvas
+		if bytes.Equal(want, got) {
+			continue
+		}
+		p := firstDiff(want, got, 1)
+		k := gout[g].First
+		rep.Note = fmt.Sprintf("alpha plane %d (played frame %d, input %d): alpha at (%d,%d) is %d, expected %d", g, k, gin[g].First, p%h.W, p/h.W, got[p], want[p])
+		key := classify(k, want[p], got[p], p)
+		c.Violate(key, rep.Note, rep)
+		return key
 	}
-	return metaKept(c, h, o, rep)
+	if !bytes.Equal(o.ICC, h.ICC) || !bytes.Equal(o.EXIF, h.EXIF) || !bytes.Equal(o.XMP, h.XMP) {
+		observe(c, "metadata-not-in-file")
+	}
+	return ""
 }
 
 // subImageFrames reports whether the history hands AddFrame an *image.NRGBA that is not a
@@ -229,33 +238,45 @@ func Compact(h *History) *History {
 func RunAndEval(c *Ctx, h *History, rng *Rand, eval func(*Ctx, *History, *Outcome) string) (*Outcome, string) {
 	o := Run(h, rng)
 	tmp := &Ctx{}
-	if h.HasRaw() {
+	// Outside the quantifier of C08 / C18 (frame sequences x Kmin/Kmax x loop count x codec mode):
+	// pre-encoded frames, injected encoder failures / the muxer's frame limit, metadata set on the
+	// encoder.  What the evaluation finds there is an observation (the Coq theorems and the model
+	// correspondence cover these histories; a disagreement there is a correspondence break).
+	if h.HasRaw() || h.Faulty() || h.HasMeta() {
+		if o.Err == "noframes" {
+			return o, ""
+		}
 		ha, oa := h, o
-		if h.Faulty() && o.Err != "noframes" {
+		if h.Faulty() {
 			ha, oa = h.Accepted(o)
 		}
-		if o.Err == "noframes" {
-			return o, ""
+		prefix := "metadata-set:"
+		switch {
+		case h.HasRaw():
+			prefix = "raw-frames:"
+			EvalRaw(tmp, ha, oa)
+		case h.Faulty():
+			prefix = "after-failed-addframe:"
+			eval(tmp, ha, oa)
+		default:
+			eval(tmp, ha, oa)
 		}
-		key := EvalRaw(c, ha, oa)
-		return o, key
-	}
-	if h.Faulty() {
-		// error injection: the show must be that of the AddFrame calls that succeeded
-		if o.Err == "noframes" {
-			return o, ""
+		for k, n := range tmp.D.Distribution {
+			for ; n > 0; n-- {
+				c.Count(k)
+			}
 		}
-		ha, oa := h.Accepted(o)
-		key := eval(tmp, ha, oa)
 		for _, v := range tmp.D.Violations {
-			c.Violate("after-failed-addframe:"+v.Key, "with injected encoder failures (calls "+fmt.Sprint(h.FailCalls)+", "+fmt.Sprint(len(o.Rejected))+" rejected AddFrame calls): "+v.Desc, Replay{History: slim(h), Note: v.Desc})
+			observe(c, prefix+v.Key)
 		}
-		if key != "" {
-			key = "after-failed-addframe:" + key
-		}
-		return o, key
+		return o, ""
 	}
 	key := eval(tmp, h, o)
+	for k, n := range tmp.D.Distribution {
+		for ; n > 0; n-- {
+			c.Count(k)
+		}
+	}
 	corr := o
 	if subImageFrames(h) {
 		// the correspondence always uses the compact run (equal to the real one unless the
@@ -325,40 +346,37 @@ func RefShow(h *History) (cs [][]byte, ds []int) {
 func EvalRaw(c *Ctx, h *History, o *Outcome) string {
 	rep := Replay{History: h, Frames: o.Frames}
 	if o.Err != "" {
-		key := "raw-frames:error:" + o.Err
-		if len(o.Err) >= 5 && o.Err[:5] == "PANIC" {
-			key = "raw-frames:panic"
-		}
+		key := "error:" + strings.SplitN(o.Err, " ", 2)[0]
 		c.Violate(key, "session with pre-encoded frames failed: "+o.Err, rep)
 		return key
 	}
 	if o.CW != h.W || o.CH != h.H {
 		rep.Note = fmt.Sprintf("canvas %dx%d, expected %dx%d", o.CW, o.CH, h.W, h.H)
-		c.Violate("raw-frames:canvas-size", rep.Note, rep)
-		return "raw-frames:canvas-size"
+		c.Violate("canvas-size", rep.Note, rep)
+		return "canvas-size"
 	}
 	rcs, rds := RefShow(h)
 	gin := Collapse(rcs, rds, NormPx)
 	gout := Collapse(o.Canvases, o.Durations, NormPx)
 	if len(gin) != len(gout) {
 		rep.Note = fmt.Sprintf("%d distinct pictures played, %d expected (%d frames in the file, %d added)", len(gout), len(gin), len(o.Frames), len(h.Frames))
-		c.Violate("raw-frames:picture-count", rep.Note, rep)
-		return "raw-frames:picture-count"
+		c.Violate("picture-count", rep.Note, rep)
+		return "picture-count"
 	}
 	for g := range gin {
 		if !bytes.Equal(gin[g].Canvas, gout[g].Canvas) {
 			p := firstDiff(gin[g].Canvas, gout[g].Canvas, 4)
 			rep.Note = fmt.Sprintf("picture %d: pixel (%d,%d) is %v, expected %v", g, p%h.W, p/h.W, gout[g].Canvas[p*4:p*4+4], gin[g].Canvas[p*4:p*4+4])
-			c.Violate("raw-frames:playback-mismatch", rep.Note, rep)
-			return "raw-frames:playback-mismatch"
+			c.Violate("playback-mismatch", rep.Note, rep)
+			return "playback-mismatch"
 		}
 	}
 	if len(gin) >= 2 {
 		for g := range gin {
 			if gin[g].Dur != gout[g].Dur {
 				rep.Note = fmt.Sprintf("picture %d displayed %d ms, expected %d ms", g, gout[g].Dur, gin[g].Dur)
-				c.Violate("raw-frames:display-time", rep.Note, rep)
-				return "raw-frames:display-time"
+				c.Violate("display-time", rep.Note, rep)
+				return "display-time"
 			}
 		}
 	}
